@@ -77,8 +77,18 @@ def cover(name, hyps, timeout_ms=5000):
                 backend="z3", time_s=0.0, model=None, meta={"cover": True})
 
 
+_NATIVE_MEMO = {}
+
+
 def native(script, request, timeout=600):
-    """run a native helper under the repo's interpreter; request/response are JSON"""
+    """run a native helper under the repo's interpreter; request/response are JSON (memoised per run)"""
+    key = (script, json.dumps(request, sort_keys=True, default=str))
+    if key not in _NATIVE_MEMO:
+        _NATIVE_MEMO[key] = _native(script, request, timeout)
+    return _NATIVE_MEMO[key]
+
+
+def _native(script, request, timeout=600):
     env = dict(os.environ)
     env["PYTHONPATH"] = REPO + os.pathsep + os.path.join(ROOT, "native")
     env.setdefault("NUMBA_DISABLE_JIT", "0")
